@@ -1,5 +1,5 @@
 (* extraction of the padding / cutting / parity model (C13) *)
 From Coq Require Import Extraction ExtrOcamlBasic List NArith.
-From SoftHSM Require Import Defs Pad.
+From SoftHSM Require Import Defs Pad Derive.
 Extraction Language OCaml.
-Extraction "extract/pad_model.ml" pkcs7_pad pkcs7_unpad rfc3394_pad derive_value odd_parity.
+Extraction "extract/pad_model.ml" pkcs7_pad pkcs7_unpad rfc3394_pad derive_value odd_parity derive_len_strict derive_len_lax agree_value len_fits.
